@@ -85,7 +85,9 @@ case "$mode" in
           echo "DETERMINISM FAILURE property=$prop seed=$seed: $(basename "$f") differs"; diff "$SCR/ev.$seed.1" "$f" | head -6; rc=2
         fi
       done
-      echo "determinism $prop seed=$seed: $nprocs processes x $(grep -c '^RUN' "$SCR/ev.$seed.1") runs, $( [ $rc = 0 ] && echo identical || echo DIFFERENT)"
+      nlines="$(grep -c '^RUN' "$SCR/ev.$seed.1")"
+      [ "$nlines" -ge 1 ] || { echo "DETERMINISM SELF-TEST BROKEN property=$prop seed=$seed: no event lines"; rc=2; }
+      echo "determinism $prop seed=$seed: $nprocs processes x $nlines runs, $( [ $rc = 0 ] && echo identical || echo DIFFERENT)"
     done
     exit $rc ;;
   *) echo "unknown mode $mode" >&2; exit 2 ;;
